@@ -10,4 +10,5 @@ Extraction "gw_model.ml"
   sl_do_input sr_init sl_feed f_scratch
   z_do_output z_do_input tm_do_output tm_do_input cache0
   ws_do_output wr_do_input ws_init ws_queue wr_init d_flat
-  mg_do_output mg_in ms_init ms_queue mr_init.
+  mg_do_output mg_in ms_init ms_queue mr_init
+  fs_has_bytes ts_has_bytes rs_has_bytes ws_has_bytes mg_has_bytes.
